@@ -3,16 +3,45 @@ from .. import core
 from ..core import Ob
 
 
+def map_loops(ctx):
+    """loop ids by what the source line says, so that edits to prchunk.c or the harness do not shift the bounds silently"""
+    import re
+    from ..core import sh
+    ob = Ob('probe', 'C18_chunk.c', 'h_chunking',
+            {'VERIF_MAX_NLINES': 2, 'VERIF_MAX_LLEN': 4, 'VERIF_CHUNK_SIZE': 2, 'SLEN': 3, 'NREADS': 3})
+    gb = ctx.compile_gb(ob)
+    out = sh(['goto-instrument', '--show-loops', gb], timeout=300).stdout
+    want = {'lines': 'while (off < bno)', 'reads': 'YIELD(1);', 'consume': 'while (prchunk_haslinep(ctx)'}
+    got = {}
+    for m in re.finditer(r'Loop ((?:prchunk_fill|h_chunking)\.\d+):\n\s+file (\S+) line (\d+)', out):
+        try:
+            lines = open(m.group(2)).read().splitlines()
+            # the reported line may be off by a few lines against the rewritten copy
+            n = int(m.group(3))
+            text = lines[n - 1] if m.group(1).startswith('h_') else ' '.join(lines[max(0, n - 4):n + 3])
+        except (OSError, IndexError):
+            continue
+        for k, pat in want.items():
+            if pat in text:
+                got.setdefault(k, []).append(m.group(1))
+    if any(len(got.get(k, [])) != 1 for k in want):
+        raise core.Broken('cannot map the loops of prchunk_fill/h_chunking: %r' % got)
+    ctx.loops = {k: v[0] for k, v in got.items()}
+    return {'loops': ctx.loops}
+
+
 def make_obs(ctx):
     obs = []
     # (window lines, line length factor, chunk, stream bytes)
-    cfgs = [(4, 6, 4, 6), (4, 6, 3, 8), (3, 8, 8, 7), (2, 8, 4, 5)]
+    cfgs = [(2, 4, 2, 3), (2, 4, 2, 4)]
     if ctx.tier == 'thorough':
-        cfgs += [(4, 6, 4, 10), (4, 6, 2, 9), (3, 4, 4, 11), (6, 4, 5, 10)]
+        cfgs += [(3, 3, 3, 4), (2, 3, 2, 5), (3, 3, 2, 5), (2, 4, 3, 5)]
     for (nl, ll, ch, sl) in cfgs:
-        d = {'VERIF_MAX_NLINES': nl, 'VERIF_MAX_LLEN': ll, 'VERIF_CHUNK_SIZE': ch, 'SLEN': sl, 'NREADS': sl + 1}
+        d = {'VERIF_MAX_NLINES': nl, 'VERIF_MAX_LLEN': ll, 'VERIF_CHUNK_SIZE': ch, 'SLEN': sl, 'NREADS': sl}
         obs.append(Ob('chunking:win%dx%d:chunk%d:stream%d' % (nl, ll, ch, sl), 'C18_chunk.c', 'h_chunking', d,
-                      unwind=sl + 6, mem=True, replay='asan', group='chunking', timeout=900,
+                      unwind=sl + 4, mem=True, replay='asan', group='chunking', timeout=1500 if ctx.tier == 'quick' else 14400,
+                      unwindset=['%s:%d' % (ctx.loops['lines'], nl + 2), '%s:%d' % (ctx.loops['reads'], sl + 3),
+                                 '%s:%d' % (ctx.loops['consume'], nl + 2)],
                       bounds={'window': '%d lines x %d bytes = %d bytes (scaled through the DATEUTILS_VERIF hook)' % (nl, ll, nl * ll),
                               'chunk': ch, 'stream': '%d symbolic bytes over {LF, CR, a, b}' % sl,
                               'schedule': 'every read() returns an arbitrary count in 1..min(chunk, remaining)'}))
@@ -21,7 +50,7 @@ def make_obs(ctx):
 
 def run(tier, seed):
     return core.run_property(
-        'C18', tier, seed, make_obs,
+        'C18', tier, seed, make_obs, pre=map_loops,
         level_note=('bounded model checking of the chunk reader on scaled constants: stream bytes and the sizes of all '
                     'read() results are symbolic, so every way of cutting the stream is covered inside the bound'),
         assumptions=['the real constants (16 MiB / 16384 lines / 4096) are outside; that the logic is parametric in them is an argument by reading',
